@@ -3,6 +3,7 @@ import Driver.ExecOps
 import Driver.CodecOps
 import Driver.ChecksumOps
 import Driver.DiagOps
+import Driver.PayloadOps
 import Driver.DevIdOps
 open Lean Driver
 
@@ -17,6 +18,8 @@ def dispatch (j : Json) : P Json := do
   | "diagreply" => opDiagReply j
   | "devid" => opDevId j
   | "devid_enc" => opDevIdEnc j
+  | "payload" => opPayload j
+  | "pdecode" => opPDecode j
   | "crc" => opCrc j
   | "lrc" => opLrc j
   | "crctable" => opCrcTable j
